@@ -335,10 +335,26 @@ func (fc *FuncCtx) envFor(fr *Frame, st *State, results []Val, useLocals bool) *
 }
 
 func (fc *FuncCtx) lookupLocal(fr *Frame, st *State, name string) (SVal, bool) {
+	return fc.lookupLocalAt(fr, st, name, token.NoPos)
+}
+
+// lookupLocalAt: as lookupLocal; when `at` is a valid position (a loop statement),
+// same-named variables whose lexical scope does not contain it are not candidates
+// (a `for i := ...` of an earlier loop does not shadow an outer `i` used by a later loop).
+func (fc *FuncCtx) lookupLocalAt(fr *Frame, st *State, name string, at token.Pos) (SVal, bool) {
 	// current cells named `name`; prefer the most recently declared live one
 	var best *ssa.Alloc
+	var pkScope *types.Scope
+	if at.IsValid() && fr.fn.Pkg != nil && fr.fn.Pkg.Pkg != nil {
+		pkScope = fr.fn.Pkg.Pkg.Scope()
+	}
 	for a := range st.cells {
 		if a.Comment == name && a.Parent() == fr.fn {
+			if pkScope != nil && a.Pos().IsValid() {
+				if sc := pkScope.Innermost(a.Pos()); sc != nil && sc != pkScope && !sc.Contains(at) {
+					continue
+				}
+			}
 			if best == nil || a.Pos() > best.Pos() {
 				best = a
 			}
@@ -1229,6 +1245,10 @@ type invariant struct {
 }
 
 func (fc *FuncCtx) bindLoopVars(fr *Frame, li *loopInfo, st *State, env *Env) {
+	if env.local != nil && li.stmt != nil {
+		at := li.stmt.Pos()
+		env.local = func(name string) (SVal, bool) { return fc.lookupLocalAt(fr, st, name, at) }
+	}
 	// visited(k): the ghost visited set of the map iteration of this loop
 	for _, ins := range li.header.Instrs {
 		if nx, ok := ins.(*ssa.Next); ok {
